@@ -1,8 +1,9 @@
 import AdfObdd.Parser2
 
 namespace ParserM
-/-! prototype 31: the fact level of the parser — `all_consuming(many1(alt(statement, ac)))` —
-    accepts every file of the documented format and returns the facts in file order -/
+/-! the fact level of the parser — `all_consuming(many1(alt(statement, ac)))` — accepts every
+    file of the documented format (alphanumeric or quoted labels) and returns the facts in file
+    order -/
 
 inductive Fact where
   | stmt (l : List Char)
@@ -11,13 +12,13 @@ deriving DecidableEq
 
 /-- `terminated(statement, terminated(tag("."), multispace0))` -/
 def stmtP : Prs Fact := fun cs =>
-  (tagL ['s'] cs).bind fun a => (tagL ['('] a.2).bind fun b => (alnum1 b.2).bind fun l =>
+  (tagL ['s'] cs).bind fun a => (tagL ['('] a.2).bind fun b => (atomic b.2).bind fun l =>
   (tagL [')'] l.2).bind fun c => (tagL ['.'] c.2).bind fun d => (ws0 d.2).bind fun e =>
   some (Fact.stmt l.1, e.2)
 
 /-- `terminated(ac, terminated(tag("."), multispace0))` -/
 def acP (fuel : Nat) : Prs Fact := fun cs =>
-  (tagL ['a','c'] cs).bind fun a => (tagL ['('] a.2).bind fun b => (alnum1 b.2).bind fun l =>
+  (tagL ['a','c'] cs).bind fun a => (tagL ['('] a.2).bind fun b => (atomic b.2).bind fun l =>
   (commaP l.2).bind fun c => (formulaF fuel c.2).bind fun f => (tagL [')'] f.2).bind fun d =>
   (tagL ['.'] d.2).bind fun e => (ws0 e.2).bind fun g => some (Fact.ac l.1 f.1, g.2)
 
@@ -30,20 +31,26 @@ def many (p : Prs Fact) : Nat → Inp → List Fact × Inp
     | none => ([], cs)
     | some (x, r) => let m := many p k r; (x :: m.1, m.2)
 
-/-- `all_consuming(many1(..))` -/
+/-- `all_consuming(many1(..))`: at least one fact, nothing left over. (`many1`'s guard against a
+parser that succeeds without consuming can never fire: every fact starts with the tag `s` or `ac`.) -/
 def parseFile (fuel : Nat) (cs : Inp) : Option (List Fact) :=
   match many (factP fuel) fuel cs with
   | ([], _) => none
   | (fs, []) => some fs
   | (_, _ :: _) => none
 
+/-- the parser on a text, as the list of facts in file order. The fuel (recursion depth of
+`formula`, number of facts) is the length of the text plus one; `parseFacts_complete` and
+`parseFacts_sound` show that this is enough: the accepted language does not depend on it. -/
+def parseFacts (cs : Inp) : Option (List Fact) := parseFile (cs.length + 1) cs
+
 /-- the documented file format: facts, each followed by optional blanks -/
 inductive DerFact : Fact → List Char → Prop
-  | stmt (l w : List Char) : l ≠ [] → AllAlnum l → AllWs w →
-      DerFact (Fact.stmt l) (['s','('] ++ l ++ [')','.'] ++ w)
-  | ac (l : List Char) (f : Fml) (s w1 w2 w : List Char) : l ≠ [] → AllAlnum l → DerF f s →
+  | stmt (l sl w : List Char) : DerL l sl → AllWs w →
+      DerFact (Fact.stmt l) (['s','('] ++ sl ++ [')','.'] ++ w)
+  | ac (l sl : List Char) (f : Fml) (s w1 w2 w : List Char) : DerL l sl → DerF f s →
       AllWs w1 → AllWs w2 → AllWs w →
-      DerFact (Fact.ac l f) (['a','c','('] ++ l ++ w1 ++ [','] ++ w2 ++ s ++ [')','.'] ++ w)
+      DerFact (Fact.ac l f) (['a','c','('] ++ sl ++ w1 ++ [','] ++ w2 ++ s ++ [')','.'] ++ w)
 
 inductive DerFile : List Fact → List Char → Prop
   | nil : DerFile [] []
@@ -61,21 +68,21 @@ theorem DerFile.head_not_ws {fs : List Fact} {t : List Char} (h : DerFile fs t) 
   | nil => simp at hc
   | cons x xs s t' hx _ =>
     cases hx with
-    | stmt l w _ _ _ => simp at hc; subst hc; decide
-    | ac l f s' w1 w2 w _ _ _ _ _ _ => simp at hc; subst hc; decide
+    | stmt l sl w _ _ => simp at hc; subst hc; decide
+    | ac l sl f s' w1 w2 w _ _ _ _ _ => simp at hc; subst hc; decide
 
 theorem goodRest_close2 (rest : List Char) : GoodRest ([')','.'] ++ rest) := by
   intro c hc; simp at hc; subst hc; exact ⟨by decide, by decide⟩
 
-theorem stmtP_ok (l w t : List Char) (hne : l ≠ []) (hl : AllAlnum l) (hw : AllWs w)
+theorem stmtP_ok (l sl w t : List Char) (hl : DerL l sl) (hw : AllWs w)
     (ht : ∀ c, t.head? = some c → isWs c = false) :
-    stmtP (['s','('] ++ l ++ [')','.'] ++ w ++ t) = some (Fact.stmt l, t) := by
-  have hshape : ['s','('] ++ l ++ [')','.'] ++ w ++ t = ['s'] ++ (['('] ++ (l ++ ([')'] ++ (['.'] ++ (w ++ t))))) := by simp
+    stmtP (['s','('] ++ sl ++ [')','.'] ++ w ++ t) = some (Fact.stmt l, t) := by
+  have hshape : ['s','('] ++ sl ++ [')','.'] ++ w ++ t = ['s'] ++ (['('] ++ (sl ++ ([')'] ++ (['.'] ++ (w ++ t))))) := by simp
   rw [hshape]
   unfold stmtP
   rw [tagL_append]; simp only [Option.bind]
   rw [tagL_append]; simp only
-  rw [alnum1_label l _ hne hl (by intro c hc; simp at hc; subst hc; exact ⟨by decide, by decide⟩)]
+  rw [atomic_ok l sl _ hl (by intro c hc; simp at hc; subst hc; exact ⟨by decide, by decide⟩)]
   simp only
   rw [tagL_append]; simp only
   rw [tagL_append]; simp only
@@ -86,17 +93,17 @@ theorem stmtP_ok (l w t : List Char) (hne : l ≠ []) (hl : AllAlnum l) (hw : Al
 theorem stmtP_none_ac (cs : List Char) : stmtP (['a','c','('] ++ cs) = none := by
   simp [stmtP, tagL]
 
-theorem acP_ok (fuel : Nat) (l : List Char) (f : Fml) (s w1 w2 w t : List Char) (hne : l ≠ []) (hl : AllAlnum l)
+theorem acP_ok (fuel : Nat) (l sl : List Char) (f : Fml) (s w1 w2 w t : List Char) (hl : DerL l sl)
     (hf : DerF f s) (h1 : AllWs w1) (h2 : AllWs w2) (hw : AllWs w) (hfuel : f.size < fuel)
     (ht : ∀ c, t.head? = some c → isWs c = false) :
-    acP fuel (['a','c','('] ++ l ++ w1 ++ [','] ++ w2 ++ s ++ [')','.'] ++ w ++ t) = some (Fact.ac l f, t) := by
-  have hshape : ['a','c','('] ++ l ++ w1 ++ [','] ++ w2 ++ s ++ [')','.'] ++ w ++ t =
-      ['a','c'] ++ (['('] ++ (l ++ (w1 ++ [','] ++ w2 ++ (s ++ ([')'] ++ (['.'] ++ (w ++ t))))))) := by simp
+    acP fuel (['a','c','('] ++ sl ++ w1 ++ [','] ++ w2 ++ s ++ [')','.'] ++ w ++ t) = some (Fact.ac l f, t) := by
+  have hshape : ['a','c','('] ++ sl ++ w1 ++ [','] ++ w2 ++ s ++ [')','.'] ++ w ++ t =
+      ['a','c'] ++ (['('] ++ (sl ++ (w1 ++ [','] ++ w2 ++ (s ++ ([')'] ++ (['.'] ++ (w ++ t))))))) := by simp
   rw [hshape]
   unfold acP
   rw [tagL_append]; simp only [Option.bind]
   rw [tagL_append]; simp only
-  rw [alnum1_label l _ hne hl (by rw [List.append_assoc]; exact goodRest_ws_comma w1 _ h1)]
+  rw [atomic_ok l sl _ hl (by rw [List.append_assoc]; exact goodRest_ws_comma w1 _ h1)]
   simp only
   rw [commaP_spec w1 w2 _ h1 h2 (hf.head_not_ws _)]
   simp only
@@ -113,16 +120,16 @@ theorem factP_ok (fuel : Nat) (x : Fact) (s t : List Char) (hx : DerFact x s) (h
     (ht : ∀ c, t.head? = some c → isWs c = false) : factP fuel (s ++ t) = some (x, t) := by
   unfold factP
   cases hx with
-  | stmt l w hne hl hw =>
+  | stmt l sl w hl hw =>
     apply orElse_some_left
-    exact stmtP_ok l w t hne hl hw ht
-  | ac l f s' w1 w2 w hne hl hf h1 h2 hw =>
-    have hnone : stmtP (['a','c','('] ++ l ++ w1 ++ [','] ++ w2 ++ s' ++ [')','.'] ++ w ++ t) = none := by
-      have : ['a','c','('] ++ l ++ w1 ++ [','] ++ w2 ++ s' ++ [')','.'] ++ w ++ t =
-          ['a','c','('] ++ (l ++ w1 ++ [','] ++ w2 ++ s' ++ [')','.'] ++ w ++ t) := by simp
+    exact stmtP_ok l sl w t hl hw ht
+  | ac l sl f s' w1 w2 w hl hf h1 h2 hw =>
+    have hnone : stmtP (['a','c','('] ++ sl ++ w1 ++ [','] ++ w2 ++ s' ++ [')','.'] ++ w ++ t) = none := by
+      have : ['a','c','('] ++ sl ++ w1 ++ [','] ++ w2 ++ s' ++ [')','.'] ++ w ++ t =
+          ['a','c','('] ++ (sl ++ w1 ++ [','] ++ w2 ++ s' ++ [')','.'] ++ w ++ t) := by simp
       rw [this]; exact stmtP_none_ac _
     rw [orElse_none_left _ _ _ hnone]
-    exact acP_ok fuel l f s' w1 w2 w t hne hl hf h1 h2 hw (by simp [Fact.size] at hfuel; omega) ht
+    exact acP_ok fuel l sl f s' w1 w2 w t hl hf h1 h2 hw (by simp [Fact.size] at hfuel; omega) ht
 
 theorem factP_nil (fuel : Nat) : factP fuel [] = none := by
   simp [factP, orElse, stmtP, acP, tagL]
@@ -147,15 +154,60 @@ theorem many_ok (fuel : Nat) : ∀ (fs : List Fact) (t : List Char), DerFile fs 
       simp only
       rw [ih k (by simp at hk; omega) (fun y hy => hsz y (List.mem_cons_of_mem _ hy))]
 
-/-- C08, file level (alphanumeric labels): a non-empty file in the documented format is accepted
-and yields exactly the written facts in file order -/
-theorem parse_complete (fuel : Nat) (fs : List Fact) (t : List Char) (h : DerFile fs t) (hne : fs ≠ [])
+/-- file level, explicit fuel: a non-empty file in the documented format is accepted and yields
+exactly the written facts in file order -/
+theorem parseFile_complete (fuel : Nat) (fs : List Fact) (t : List Char) (h : DerFile fs t) (hne : fs ≠ [])
     (hlen : fs.length < fuel) (hsz : ∀ x ∈ fs, x.size < fuel + 1) : parseFile fuel t = some fs := by
   unfold parseFile
   rw [many_ok fuel fs t h fuel hlen hsz]
   cases fs with
   | nil => exact absurd rfl hne
   | cons _ _ => rfl
-#print axioms parse_complete
+
+/-! ### the fuel `length + 1` is enough -/
+
+theorem DerF.size_le {f : Fml} {s : List Char} (h : DerF f s) : f.size ≤ s.length := by
+  induction h with
+  | top => simp [Fml.size]
+  | bot => simp [Fml.size]
+  | atom l s hl =>
+    cases hl with
+    | alnum hne _ =>
+      cases l with
+      | nil => exact absurd rfl hne
+      | cons _ _ => simp [Fml.size]
+    | quoted _ => simp [Fml.size]
+  | not f s _ ih => simp [Fml.size]; omega
+  | and a b s1 s2 w1 w2 _ _ _ _ iha ihb => simp [Fml.size]; omega
+  | or a b s1 s2 w1 w2 _ _ _ _ iha ihb => simp [Fml.size]; omega
+  | imp a b s1 s2 w1 w2 _ _ _ _ iha ihb => simp [Fml.size]; omega
+  | xor a b s1 s2 w1 w2 _ _ _ _ iha ihb => simp [Fml.size]; omega
+  | iff a b s1 s2 w1 w2 _ _ _ _ iha ihb => simp [Fml.size]; omega
+
+theorem DerFact.size_le {x : Fact} {s : List Char} (h : DerFact x s) : x.size < s.length := by
+  cases h with
+  | stmt l sl w _ _ => simp [Fact.size]
+  | ac l sl f s' w1 w2 w _ hf _ _ _ => have := hf.size_le; simp [Fact.size]; omega
+
+theorem DerFile.bounds {fs : List Fact} {t : List Char} (h : DerFile fs t) :
+    fs.length ≤ t.length ∧ ∀ x ∈ fs, x.size < t.length := by
+  induction h with
+  | nil => simp
+  | cons x xs s t' hx _ ih =>
+    have hs := hx.size_le
+    refine ⟨by simp; omega, ?_⟩
+    intro y hy
+    rcases List.mem_cons.mp hy with rfl | hy
+    · simp; omega
+    · have := ih.2 y hy; simp; omega
+
+/-- file level completeness: every non-empty file of the documented format — facts in any order,
+any blanks after facts and around commas, labels alphanumeric (keyword-like ones included) or
+quoted — is accepted and yields exactly the written facts, in file order, labels verbatim -/
+theorem parseFacts_complete (fs : List Fact) (t : List Char) (h : DerFile fs t) (hne : fs ≠ []) :
+    parseFacts t = some fs := by
+  have b := h.bounds
+  exact parseFile_complete _ fs t h hne (by omega) (fun x hx => by have := b.2 x hx; omega)
+#print axioms parseFacts_complete
 
 end ParserM
